@@ -38,4 +38,14 @@ def restrict (m : List (K × V)) (ks : List K) : List (K × V) :=
   ks.filterMap (fun k => (get? m k).map (fun v => (k, v)))
 
 end AMap
+
+/-- insertion sort (structural, so that concrete instances reduce in the kernel) -/
+def insertBy {α : Type} (le : α → α → Bool) (x : α) : List α → List α
+  | [] => [x]
+  | y :: ys => if le x y then x :: y :: ys else y :: insertBy le x ys
+
+def isort {α : Type} (le : α → α → Bool) : List α → List α
+  | [] => []
+  | x :: xs => insertBy le x (isort le xs)
+
 end Klepto
